@@ -11,4 +11,7 @@ Definition has_suffix (suf s : string) : bool :=
   if Nat.leb m n then String.eqb (String.substring (n - m) m s) suf else false.
 
 Definition sig_run (fam : string) (args : list val) : option string :=
-  if has_suffix ".sig" fam then Some "compiles" else None.
+  if has_suffix ".sig" fam then Some "compiles"
+  else if has_suffix ".dbg" fam then Some "same"        (* konst built with its `debug` feature still agrees with std *)
+  else if has_suffix ".sigfail" fam then Some "rejected"   (* a result may not outlive what it borrows from *)
+  else None.
